@@ -9,7 +9,7 @@ tdiv_qr_spec tdiv_q_spec tdiv_r_spec fdiv_qr_spec cdiv_qr_spec fdiv_q_spec cdiv_
 q_ui_return_abs_r r_ui_return_abs_r qr_ui_return_abs_r ui_return_abs_r spec_dirs div_by_zero_raises
 cfdiv_q_2exp_spec cfdiv_r_2exp_spec tdiv_q_2exp_spec tdiv_r_2exp_spec
 divexact_spec divexact_ui_spec divisible_p_iff divisible_p_zero divisible_ui_p_iff divisible_2exp_p_iff
-congruent_p_iff congruent_p_zero congruent_ui_p_iff
+congruent_p_iff congruent_p_zero congruent_ui_p_iff mpn_tdiv_qr_contract
 """.split()]
 TRUSTED = ["hand-written models lean/Mpir/Model/DivZ.lean of the mpz division wrappers (tied by correspondence on every run)",
            "callee specifications used inside the wrapper models: mpn_tdiv_qr/mpn_tdiv_q/mpn_divrem_1/mpn_mod_1 = Nat div/mod, "
@@ -357,12 +357,13 @@ def gen_mpn(rng, tier, T):
     for dn, qn in shapes:
         ds = list(norm_divisors(rng, dn))
         if quick and dn > 8: ds = [rng.choice(ds[:3]), ds[3], ds[4]]
+        elif dn > 8: ds = [rng.choice(ds[:3]), ds[3], ds[4], rng.choice(ds[5:])]
         for d0 in ds:
             sh = rng.choice([0, 0, rng.randrange(1, 64)]) if dn > 1 or d0 >> 1 else 0
             d = d0 >> sh
             if d >> (64 * (dn - 1)) == 0: d = d0
             ns = list(dividends(rng, d, dn, qn))
-            if quick and dn + qn > 12: ns = rng.sample(ns, min(4, len(ns)))
+            if dn + qn > 12: ns = rng.sample(ns, min(4 if quick else 7, len(ns)))
             for n in ns:
                 nn = dn + qn
                 if qn >= 1 and n >> (64 * (nn - 1)) == 0 and rng.random() < 0.5: nn -= 1     # tdiv_qr writes nn-dn+1 limbs
@@ -376,9 +377,10 @@ def gen_mpn(rng, tier, T):
     def internal(ops, dn, qn):
         ds = list(norm_divisors(rng, dn))
         if quick and dn > 8: ds = [rng.choice(ds[:3]), ds[3], rng.choice(ds[4:])]
+        elif dn > 8: ds = [rng.choice(ds[:3]), ds[3], ds[4], rng.choice(ds[5:])]
         for d in ds:
             ns = list(dividends(rng, d, dn, qn))
-            if quick and dn + qn > 12: ns = rng.sample(ns, min(5, len(ns)))
+            if dn + qn > 12: ns = rng.sample(ns, min(5 if quick else 8, len(ns)))
             for n in ns:
                 for op in ops:
                     if qn == 0 and "divappr" in op: continue        # the divappr functions store at least one quotient limb
